@@ -4,6 +4,7 @@
 
 use crate::ckalloc::{self, CkAlloc};
 use crate::ctx::Ctx;
+use crate::oplog;
 use crate::elem::Elem;
 use crate::plan::{KeyRef, Plan, PlanBH, INTO_GEN};
 use crate::util::{catch, catch_expected, is_injected, payload_str, splitmix64, Digest, Json, Rng};
@@ -112,7 +113,7 @@ impl<K: Elem, V: Elem> MapDrv<K, V> {
             compare: bh.plan.is_lawful(),
             lawful: bh.plan.is_lawful(),
             order_free: false,
-            validate_every: 1,
+            validate_every: if crate::util::slow_lane() { 6 } else { 1 },
             max_live: usize::MAX,
             gen: 0,
             tr: Digest::default(),
@@ -242,7 +243,7 @@ impl<K: Elem, V: Elem> MapDrv<K, V> {
             10 => self.op_extend(ctx, rng),
             11 => self.op_from_iter(ctx, rng),
             12 => {
-                ctx.log("clear".into());
+                oplog!(ctx, "clear");
                 self.map.clear();
                 self.model.e.clear();
                 0
@@ -268,7 +269,7 @@ impl<K: Elem, V: Elem> MapDrv<K, V> {
         let id = self.pick_id(rng);
         let (k, kg) = self.mk_k(id);
         let (v, vv, vg) = self.mk_v(rng);
-        ctx.log(format!("insert({},g{} -> {},g{})", id, kg, vv, vg));
+        oplog!(ctx, "insert({},g{} -> {},g{})", id, kg, vv, vg);
         let old = self.map.insert(k, v);
         let mold = self.model.insert(id, kg, vv, vg);
         match (&old, &mold) {
@@ -292,7 +293,7 @@ impl<K: Elem, V: Elem> MapDrv<K, V> {
     fn op_get(&mut self, ctx: &mut Ctx, rng: &mut Rng) -> u64 {
         let id = self.pick_id(rng);
         let by_ref = rng.chance(1, 2);
-        ctx.log(format!("get({}{})", id, if by_ref { ",KeyRef" } else { "" }));
+        oplog!(ctx, "get({}{})", id, if by_ref { ",KeyRef" } else { "" });
         let got = if by_ref {
             self.map.get(&KeyRef(id))
         } else {
@@ -319,7 +320,7 @@ impl<K: Elem, V: Elem> MapDrv<K, V> {
     fn op_get_mut(&mut self, ctx: &mut Ctx, rng: &mut Rng) -> u64 {
         let id = self.pick_id(rng);
         let (nv, vv, vg) = self.mk_v(rng);
-        ctx.log(format!("get_mut({}) := {},g{}", id, vv, vg));
+        oplog!(ctx, "get_mut({}) := {},g{}", id, vv, vg);
         let m = self.model.get(id);
         let compare = self.compare;
         let got = self.map.get_mut(&KeyRef(id));
@@ -345,7 +346,7 @@ impl<K: Elem, V: Elem> MapDrv<K, V> {
 
     fn op_contains(&mut self, ctx: &mut Ctx, rng: &mut Rng) -> u64 {
         let id = self.pick_id(rng);
-        ctx.log(format!("contains_key({})", id));
+        oplog!(ctx, "contains_key({})", id);
         let (k, _) = self.mk_k(id);
         let a = self.map.contains_key(&k);
         let b = self.map.contains_key(&KeyRef(id));
@@ -358,7 +359,7 @@ impl<K: Elem, V: Elem> MapDrv<K, V> {
         let id = self.pick_id(rng);
         let m = self.model.get(id);
         if rng.chance(1, 2) {
-            ctx.log(format!("get_key_value({})", id));
+            oplog!(ctx, "get_key_value({})", id);
             let got = self.map.get_key_value(&KeyRef(id));
             self.presence(got.is_some(), id, "get_key_value");
             if let Some((k, v)) = got {
@@ -373,7 +374,7 @@ impl<K: Elem, V: Elem> MapDrv<K, V> {
             0
         } else {
             let (nv, vv, vg) = self.mk_v(rng);
-            ctx.log(format!("get_key_value_mut({}) := {},g{}", id, vv, vg));
+            oplog!(ctx, "get_key_value_mut({}) := {},g{}", id, vv, vg);
             let compare = self.compare;
             let got = self.map.get_key_value_mut(&KeyRef(id));
             let present = got.is_some();
@@ -400,7 +401,7 @@ impl<K: Elem, V: Elem> MapDrv<K, V> {
 
     fn op_index(&mut self, ctx: &mut Ctx, rng: &mut Rng) -> u64 {
         let id = self.pick_id(rng);
-        ctx.log(format!("index({})", id));
+        oplog!(ctx, "index({})", id);
         let map = &self.map;
         let r = catch_expected(|| {
             let v = &map[&KeyRef(id)];
@@ -426,7 +427,7 @@ impl<K: Elem, V: Elem> MapDrv<K, V> {
         let id = if rng.chance(3, 4) { self.pick_present(rng).unwrap_or_else(|| self.pick_id(rng)) } else { self.pick_id(rng) };
         let m = self.model.remove(id);
         if rng.chance(1, 2) {
-            ctx.log(format!("remove({})", id));
+            oplog!(ctx, "remove({})", id);
             let got = self.map.remove(&KeyRef(id));
             match (&got, &m) {
                 (Some(g), Some(m)) => self.chk_v(g, m, "remove"),
@@ -445,7 +446,7 @@ impl<K: Elem, V: Elem> MapDrv<K, V> {
             }
             got.map(|g| g.id() as u64 + 1).unwrap_or(0)
         } else {
-            ctx.log(format!("remove_entry({})", id));
+            oplog!(ctx, "remove_entry({})", id);
             let (k, _) = self.mk_k(id);
             let got = self.map.remove_entry(&k);
             match (&got, &m) {
@@ -475,7 +476,7 @@ impl<K: Elem, V: Elem> MapDrv<K, V> {
         let id = self.pick_id(rng);
         let (k, kg) = self.mk_k(id);
         let (v, vv, vg) = self.mk_v(rng);
-        ctx.log(format!("try_insert({},g{} -> {},g{})", id, kg, vv, vg));
+        oplog!(ctx, "try_insert({},g{} -> {},g{})", id, kg, vv, vg);
         let m = self.model.get(id);
         let compare = self.compare;
         let r = self.map.try_insert(k, v);
@@ -526,7 +527,7 @@ impl<K: Elem, V: Elem> MapDrv<K, V> {
         let m = self.model.get(id);
         let compare = self.compare;
         let sub = rng.below(16);
-        ctx.log(format!("entry({},g{}) sub{} val {},g{}", id, kg, sub, vv, vg));
+        oplog!(ctx, "entry({},g{}) sub{} val {},g{}", id, kg, sub, vv, vg);
         let keep = rng.chance(1, 2);
         // effect on the model, decided by what the real entry reports
         enum Eff {
@@ -776,7 +777,7 @@ impl<K: Elem, V: Elem> MapDrv<K, V> {
         let compare = self.compare;
         let sub = rng.below(9);
         let kg = if K::HAS_GEN { INTO_GEN } else { 0 };
-        ctx.log(format!("entry_ref({}) sub{} val {},g{}", id, sub, vv, vg));
+        oplog!(ctx, "entry_ref({}) sub{} val {},g{}", id, sub, vv, vg);
         let kr = KeyRef(id);
         let occupied;
         let mut inserted = false;
@@ -872,7 +873,7 @@ impl<K: Elem, V: Elem> MapDrv<K, V> {
         let m = self.model.get(id);
         let compare = self.compare;
         let sub = rng.below(8);
-        ctx.log(format!("rustc_entry({},g{}) sub{} val {},g{}", id, kg, sub, vv, vg));
+        oplog!(ctx, "rustc_entry({},g{}) sub{} val {},g{}", id, kg, sub, vv, vg);
         let occupied;
         let mut inserted = false;
         let mut set = false;
@@ -956,7 +957,7 @@ impl<K: Elem, V: Elem> MapDrv<K, V> {
         let keep = rng.chance(1, 2);
         let h = self.bh.hash_of(id);
         let bh = self.bh;
-        ctx.log(format!("raw_entry_mut how{} ({},g{}) sub{} val {},g{}", how, id, kg, sub, vv, vg));
+        oplog!(ctx, "raw_entry_mut how{} ({},g{}) sub{} val {},g{}", how, id, kg, sub, vv, vg);
         let b = self.map.raw_entry_mut();
         let e = match how {
             0 => b.from_key(&KeyRef(id)),
@@ -1084,7 +1085,7 @@ impl<K: Elem, V: Elem> MapDrv<K, V> {
         let id = self.pick_id(rng);
         let how = rng.below(3);
         let h = self.bh.hash_of(id);
-        ctx.log(format!("raw_entry how{} ({})", how, id));
+        oplog!(ctx, "raw_entry how{} ({})", how, id);
         let b = self.map.raw_entry();
         let got = match how {
             0 => b.from_key(&KeyRef(id)),
@@ -1117,7 +1118,7 @@ impl<K: Elem, V: Elem> MapDrv<K, V> {
             desc.push((id, kg, vv, vg));
             items.push((k, v));
         }
-        ctx.log(format!("extend({:?})", desc.iter().map(|d| d.0).collect::<Vec<_>>()));
+        oplog!(ctx, "extend({:?})", desc.iter().map(|d| d.0).collect::<Vec<_>>());
         // an iterator whose size_hint lower bound is honest but smaller than its length half of the time
         if rng.chance(1, 2) {
             self.map.extend(items);
@@ -1141,7 +1142,7 @@ impl<K: Elem, V: Elem> MapDrv<K, V> {
             model.insert(id, kg, vv, vg);
             items.push((k, v));
         }
-        ctx.log(format!("from_iter(n={})", n));
+        oplog!(ctx, "from_iter(n={})", n);
         let new: Map<K, V> = items.into_iter().collect();
         self.map = new;
         self.model = model;
@@ -1158,20 +1159,20 @@ impl<K: Elem, V: Elem> MapDrv<K, V> {
         let len_before = self.map.len();
         match sub {
             0 => {
-                ctx.log(format!("reserve({})", n));
+                oplog!(ctx, "reserve({})", n);
                 self.map.reserve(n);
                 crate::check!(self.map.capacity() >= len_before + n, "reserve({}): capacity {} < len {} + {}", n, self.map.capacity(), len_before, n);
             }
             1 => {
-                ctx.log(format!("shrink_to({})", n));
+                oplog!(ctx, "shrink_to({})", n);
                 self.map.shrink_to(n);
             }
             2 => {
-                ctx.log("shrink_to_fit".into());
+                oplog!(ctx, "shrink_to_fit");
                 self.map.shrink_to_fit();
             }
             _ => {
-                ctx.log(format!("try_reserve({})", n));
+                oplog!(ctx, "try_reserve({})", n);
                 let r = self.map.try_reserve(n);
                 crate::check!(r.is_ok(), "try_reserve({}) failed without any refusal: {:?}", n, r);
                 crate::check!(self.map.capacity() >= len_before + n, "try_reserve({}): capacity {} < len {} + {}", n, self.map.capacity(), len_before, n);
@@ -1183,7 +1184,7 @@ impl<K: Elem, V: Elem> MapDrv<K, V> {
 
     fn op_retain(&mut self, ctx: &mut Ctx, rng: &mut Rng) -> u64 {
         let salt = rng.next();
-        ctx.log(format!("retain(salt {:#x})", salt));
+        oplog!(ctx, "retain(salt {:#x})", salt);
         let len = self.map.len();
         let mut calls = 0usize;
         self.map.retain(|k, v| {
@@ -1200,7 +1201,7 @@ impl<K: Elem, V: Elem> MapDrv<K, V> {
     fn op_drain(&mut self, ctx: &mut Ctx, rng: &mut Rng) -> u64 {
         let len = self.map.len();
         let take = if self.order_free || rng.chance(1, 2) { len } else { rng.usize_below(len + 1) };
-        ctx.log(format!("drain(take {} of {})", take, len));
+        oplog!(ctx, "drain(take {} of {})", take, len);
         let mut seen = Vec::new();
         {
             let mut d = self.map.drain();
@@ -1243,7 +1244,7 @@ impl<K: Elem, V: Elem> MapDrv<K, V> {
         let salt = rng.next();
         let full = self.order_free || rng.chance(1, 2);
         let limit = if full { usize::MAX } else { rng.usize_below(self.map.len() + 1) };
-        ctx.log(format!("extract_if(salt {:#x}, limit {})", salt, limit as i64));
+        oplog!(ctx, "extract_if(salt {:#x}, limit {})", salt, limit as i64);
         let mut got = Vec::new();
         {
             let mut it = self.map.extract_if(|k, v| {
@@ -1285,7 +1286,7 @@ impl<K: Elem, V: Elem> MapDrv<K, V> {
         let sub = rng.below(3);
         match sub {
             0 => {
-                ctx.log("clone (swap in)".into());
+                oplog!(ctx, "clone (swap in)");
                 let c = self.map.clone();
                 if self.compare {
                     crate::check!(c == self.map, "clone() != source");
@@ -1296,7 +1297,7 @@ impl<K: Elem, V: Elem> MapDrv<K, V> {
                 // clone_from into a target in a random state
                 let cap = rng.below(40) as usize;
                 let junk = rng.below(12) as u32;
-                ctx.log(format!("clone_from into target(cap {}, {} junk entries)", cap, junk));
+                oplog!(ctx, "clone_from into target(cap {}, {} junk entries)", cap, junk);
                 let mut t: Map<K, V> = Map::with_capacity_and_hasher_in(cap, self.bh, CkAlloc);
                 for j in 0..junk {
                     let (k, _) = self.mk_k(j % self.universe);
@@ -1313,7 +1314,7 @@ impl<K: Elem, V: Elem> MapDrv<K, V> {
                 self.map = t;
             }
             _ => {
-                ctx.log("clone (drop the clone)".into());
+                oplog!(ctx, "clone (drop the clone)");
                 let c = self.map.clone();
                 crate::check!(c.len() == self.map.len(), "clone len {} != {}", c.len(), self.map.len());
                 drop(c);
@@ -1324,7 +1325,7 @@ impl<K: Elem, V: Elem> MapDrv<K, V> {
 
     fn op_iterate(&mut self, ctx: &mut Ctx, rng: &mut Rng) -> u64 {
         let sub = rng.below(6);
-        ctx.log(format!("iterate sub{}", sub));
+        oplog!(ctx, "iterate sub{}", sub);
         let len = self.map.len();
         let mut n = 0usize;
         let mut acc = 0u64;
@@ -1405,7 +1406,7 @@ impl<K: Elem, V: Elem> MapDrv<K, V> {
             return 0;
         }
         let (nv, vv, vg) = self.mk_v(rng);
-        ctx.log(format!("get_many_mut([{}, {}]) write first", a, b));
+        oplog!(ctx, "get_many_mut([{}, {}]) write first", a, b);
         let ma = self.model.get(a);
         let mb = self.model.get(b);
         let compare = self.compare;
@@ -1439,7 +1440,7 @@ impl<K: Elem, V: Elem> MapDrv<K, V> {
         let sub = rng.below(8);
         let len = self.map.len();
         let k_steps = rng.usize_below(len + 1);
-        ctx.log(format!("leak sub{} after {} steps (len {})", sub, k_steps, len));
+        oplog!(ctx, "leak sub{} after {} steps (len {})", sub, k_steps, len);
         match sub {
             0 => {
                 // Drain forgotten: the map must be a valid, emptied map afterwards
